@@ -1,8 +1,11 @@
 """C04 - readers and lpconvert are total and memory-safe on arbitrary input; consumer contract.
 
 Case: mode opts len bytes...   (see harness/h_c04.cpp)
+Every mode is modelled (coq/C04/Model.v): readers 0-2 by their call sequence; the lpconvert pipelines 3-6 and the real binary 7 by
+status, error reports, error line and the exact output bytes (coq/C04/Pipe.v composes the reader, converter and writer models).
 The oracle judges the implementation alone: no crash / sanitizer report / leak / escaped exception, exactly one error report on
-rejection, and the recorded call sequence respects the consumer contract of the property statement.
+rejection, the recorded call sequence respects the consumer contract of the property statement, pipeline output is well-formed, and the
+smodels -> aspif conversion equals an independent python reference.  See notes/C04.md.
 """
 import random, re
 from props import calls as C
@@ -18,10 +21,12 @@ VARIANTS = {'shipped': {}}
 VARIANTS.update({('N%d' % n): {'POTASSCO_VERIF_BUF_SIZE': n} for n in SMALL})
 RULE = ('cases = (reader/pipeline mode, option bits, arbitrary bytes); streams: byte soup, token soup, grammar-aware mutations of valid aspif / smodels / '
         'ground-text inputs (truncate, splice, flip, duplicate, numbers at 2^31/2^32/2^63/2^64 boundaries, announced lengths larger than the rest, NUL, CR only), '
-        'valid programs; each at the shipped buffer size and hooked sizes 16/67; non-trivial = the reader delivered at least one directive or reported an error after the header; '
-        'distinct = distinct (mode, opts, bytes)')
+        'valid programs; valid multi-directive / multi-step programs with small atoms through every lpconvert pipeline and the binary under every option set '
+        '(a third damaged in one place); first rules whose head fills the rule builder\'s memory block exactly; each at the shipped buffer size and hooked sizes 16/67; '
+        'non-trivial = the reader delivered at least one directive, reported an error after the header, or the pipeline wrote output; distinct = distinct (mode, opts, bytes)')
 TRUSTED_BASE = ['ASan/UBSan/LSan as the detector of memory errors, UB and leaks in the compiled readers and lpconvert (exploration-strength for the runtime part)',
-                'props/C04.py contract oracle']
+                'props/C04.py contract oracle, output sanity checks and the python smodels reference of props/C07.py used for the smodels->aspif output',
+                'std::ostream integer formatting = Lib/Dec.v print_Z / print_nat; stdout of the binary is flushed by Application::exit before _exit']
 HARNESS_ENV = {'ASAN_OPTIONS': 'detect_leaks=1:abort_on_error=0:exitcode=77:allocator_may_return_null=0:max_allocation_size_mb=2048'}
 ASSUMPTIONS = ['exhaustion of memory by sizes the input itself announces is outside the claim']
 
@@ -136,7 +141,7 @@ def oracle(c, obs):
     if len(obs) < 4:
         return ['harness:short-observation']
     status, nerr, line, leak = obs[:4]
-    if status in (2, 3):
+    if status in (2, 3) and mode <= 6:
         sig.append('exception-escaped-the-reader')
     if leak:
         sig.append('memory-leak')
@@ -176,9 +181,65 @@ def oracle(c, obs):
         if sum(1 for c_ in cl if c_[0] == 11) > n_heu:
             sig.append('heuristic-delivered-without-a-well-formed-heuristic-symbol')
     if mode == 7:
-        code = obs[4] if len(obs) > 4 else -1
-        if code not in (0, 1, 2000):
-            sig.append('lpconvert-abnormal-exit-%d' % code)
+        # status = exit status of the binary
+        if status not in (0, 1, 2000):
+            sig.append('lpconvert-abnormal-exit-%d' % status)
+        recognised = data[:1] == b'a' or data[:1].isdigit()
+        if status == 1 and nerr != (1 if recognised else 0):
+            sig.append('lpconvert-error-reported-%d-times' % nerr)
+        if status == 1 and nerr == 1:
+            nlines = data.count(b'\n') + data.count(b'\r') + 1
+            if not (1 <= line <= nlines):
+                sig.append('error-line-outside-text')
+    if mode >= 3 and status != 2000:
+        if len(obs) < 5 or obs[4] != len(obs) - 5:
+            sig.append('harness:output-length-mismatch')
+        elif status in (0, 1) and b'\0' not in data:
+            sig += output_sane(mode, opts, data, status, bytes(obs[5:]))
+    return sig
+
+
+def output_sane(mode, opts, data, status, out):
+    """Judgement on the bytes a pipeline wrote, from the implementation alone: whatever was written before an error is a prefix of
+    well-formed output of the target format, and accepted input yields complete output."""
+    sig = []
+    m = mode
+    if mode == 7:
+        if data[:1] == b'a':
+            m = 4 if opts & 4 else 3
+        elif data[:1].isdigit():
+            m = 6 if opts & 4 else 5
+        else:
+            return ['lpconvert-wrote-output-for-unrecognised-input'] if out else []
+    if m == 5 and not (opts & 1):
+        # independent reference: props/C07.py's byte-level smodels reader + the aspif spelling of the calls it denotes; the real
+        # pipeline must have written exactly that (all of it when accepted, the part before the error otherwise)
+        from props import C07 as R7
+        ok, rcalls, rej = R7.reference(list(data), False)
+        want = b''.join(aspif_text([cl]) for cl in rcalls if cl[0] != 2)
+        if (status == 0) != bool(ok):
+            sig.append('smodels-to-aspif-status-differs-from-reference')
+        elif out != want:
+            sig.append('smodels-to-aspif-output-differs-from-reference')
+    if m == 5:
+        # aspif: header line first; every complete line is a sequence of blank separated tokens starting with a directive number;
+        # an accepted program ends with the step terminator
+        if out:
+            if not out.startswith(b'asp 1 0 0'):
+                sig.append('aspif-output-without-header')
+            if not out.endswith(b'\n'):
+                sig.append('aspif-output-ends-inside-a-line')
+        if status == 0 and not out.endswith(b'\n0\n'):
+            sig.append('aspif-output-accepted-but-not-terminated')
+    elif m == 3:
+        # smodels: only digits, blanks, line feeds, the compute keywords and symbol names; an accepted program ends with the model count
+        if out and not out.endswith(b'\n'):
+            sig.append('smodels-output-ends-inside-a-line')
+        if status == 0 and not out.endswith(b'\n1\n'):
+            sig.append('smodels-output-accepted-but-not-terminated')
+    else:
+        if out and not out.endswith(b'\n'):
+            sig.append('text-output-ends-inside-a-line')
     return sig
 
 
@@ -199,17 +260,19 @@ def nontrivial(c, obs):
 
 
 def obs_equal(c, impl, model):
+    """Every mode is modelled: readers (0-2) by their call sequence, the lpconvert pipelines (3-6) and the binary (7) by status,
+    number of error reports, error line and the exact bytes of the output stream."""
     mode = c[0]
-    if mode > 2 or not model or model == [-1]:
-        return True       # pipelines and the smodels special-predicate options are not modelled (sanitizer runs + oracle only)
     if 0 in c[3:3 + c[2]]:
         return True       # a NUL byte ends the visible window of the real buffer at a buffer-dependent place (C09 excludes NUL); oracle only
-    if len(impl) < 4 or len(model) < 4:
-        return False
-    # status, error count and calls must agree; the error line only when an error was reported; leak flag is implementation-only
+    if mode == 7 and impl and impl[0] == 2000:
+        return True       # sanitizer report about an allocation size the input announces: outside the claim
+    if not model or len(impl) < 4 or len(model) < 4:
+        return False      # [] = undecodable case, [-1] = a reader loop of the model ran out of fuel (proved impossible)
+    # status, error count and calls / output bytes must agree; the error line only when an error was reported; leak flag is implementation-only
     if impl[0] != model[0] or impl[1] != model[1]:
         return False
-    if impl[0] == 1 and impl[2] != model[2]:
+    if impl[0] == 1 and impl[1] and impl[2] != model[2]:
         return False
     return impl[4:] == model[4:]
 
@@ -317,6 +380,137 @@ def smodels_text(rnd):
         lines.append('0')
     lines.append('1')
     return ('\n'.join(lines) + '\n').encode()
+
+
+HEU_MODS = ['level', 'sign', 'factor', 'init', 'true', 'false']
+
+
+def smodels_prog(rnd, ext):
+    """A valid smodels program with small atoms: with `ext` possibly incremental (several steps, external rules), symbol tables that
+    mix plain names with the special predicates lpconvert -p converts back (`_heuristic(..)`, `_edge(..)`, `_acyc_..`), heuristics on
+    names defined in the same / an earlier / no step, compute statements."""
+    inc = ext and rnd.random() < 0.4
+    steps = rnd.choice([1, 2, 3]) if inc else 1
+    n = rnd.randint(2, 7)
+    A = lambda: rnd.randint(1, n)
+    plain = ['a', 'b', 'c(1)', 'p("x,y")', 'q(a,b)', 'x_1', '"s"', 'f(g(1),"(")']
+    lines = []
+    for st in range(steps):
+        if inc:
+            lines.append('90 0')
+        for _ in range(rnd.choice([0, 1, 2, 3, 5])):
+            k = rnd.choice([1, 1, 2, 3, 5, 8, 6] + ([91, 92] if ext else []))
+            nl = rnd.randint(0, 3); ng = rnd.randint(0, nl)
+            at = ' '.join(str(A()) for _ in range(nl))
+            if k == 1:
+                lines.append('1 %d %d %d %s' % (A(), nl, ng, at))
+            elif k == 2:
+                lines.append('2 %d %d %d %d %s' % (A(), nl, ng, rnd.randint(0, 3), at))
+            elif k in (3, 8):
+                nh = rnd.randint(1, 3)
+                lines.append('%d %d %s %d %d %s' % (k, nh, ' '.join(str(A()) for _ in range(nh)), nl, ng, at))
+            elif k == 5:
+                lines.append('5 %d %d %d %d %s %s' % (A(), rnd.randint(0, 5), nl, ng, at, ' '.join(str(rnd.randint(0, 3)) for _ in range(nl))))
+            elif k == 6:
+                lines.append('6 0 %d %d %s %s' % (nl, ng, at, ' '.join(str(rnd.randint(0, 3)) for _ in range(nl))))
+            elif k == 91:
+                lines.append('91 %d %d' % (A(), rnd.randint(0, 2)))
+            else:
+                lines.append('92 %d' % A())
+        lines.append('0')
+        atoms = list(range(1, n + 1))
+        rnd.shuffle(atoms)
+        for a in atoms[:rnd.randint(0, n)]:
+            r = rnd.random()
+            if r < 0.45:
+                nm = rnd.choice(plain)
+            elif r < 0.7:
+                nm = '_heuristic(%s,%s,%d%s)' % (rnd.choice(plain), rnd.choice(HEU_MODS), rnd.choice([-2, -1, 0, 1, 3, 2147483647, -2147483648]),
+                                                 rnd.choice(['', ',0', ',1', ',7', ',2147483647']))
+            elif r < 0.9:
+                nm = rnd.choice(['_edge(%d,%d)' % (rnd.randint(0, 3), rnd.randint(0, 3)), '_edge(%s,%s)' % (rnd.choice(plain), rnd.choice(plain)),
+                                 '_acyc_%d_%d_%d' % (rnd.randint(0, 9), rnd.randint(0, 3), rnd.randint(0, 3))])
+            else:
+                nm = rnd.choice(['_heuristic(a,level,', '_edge(1', '_acyc_1_', '_heuristic(a,foo,1)', '_edge(,)', '_heuristic(b,sign,1,-1)'])
+            lines.append('%d %s' % (a, nm))
+        lines.append('0')
+        lines.append('B+')
+        for _ in range(rnd.choice([0, 0, 1, 2])):
+            lines.append(str(A()))
+        lines.append('0')
+        lines.append('B-')
+        for _ in range(rnd.choice([0, 0, 1, 2])):
+            lines.append(str(A()))
+        lines.append('0')
+        if rnd.random() < 0.3:
+            lines.append('E')
+            for _ in range(rnd.choice([0, 1, 2])):
+                lines.append(str(A()))
+            lines.append('0')
+        lines.append('1')
+    return ('\n'.join(lines) + '\n').encode()
+
+
+def convertible_program(rnd, ext):
+    """A valid aspif program of the directives smodels format can carry (rules, weight rules, minimize, output, external and - with the
+    extensions - heuristic / edge), small atoms, 1..3 steps when `ext`."""
+    kinds = [4, 4, 4, 5, 5, 6, 8, 8, 9] + ([11, 12] if ext else [])
+    old = C.BIG_ATOMS
+    C.BIG_ATOMS = False
+    try:
+        steps = rnd.choice([1, 1, 2, 3]) if ext else 1
+        prog = [(1, steps > 1)]
+        for _ in range(steps):
+            prog.append((2,))
+            for _ in range(rnd.choice([0, 1, 2, 3, 5, 8])):
+                d = C.r_directive(rnd, small=6, theory=False, kinds=kinds)
+                if d[0] == 6:
+                    d = (6, d[1], [(l, w if w != -2 ** 31 else -1) for l, w in d[2]])     # INT_MIN is refused (C02); keep most programs convertible
+                if d[0] == 8 and rnd.random() < 0.8:
+                    d = (8, rnd.choice([b'a', b'b(1)', b'p("x y")', b'_x', b'c']), d[2])
+                prog.append(d)
+            prog.append((3,))
+        return prog
+    finally:
+        C.BIG_ATOMS = old
+
+
+CAP_HEADS = [9, 10, 11, 12, 13, 25, 26, 27, 28, 29, 57, 58, 59, 60, 61, 123]
+
+
+def capacity_rule_text(rnd, fam):
+    """The rule builder keeps one growing memory block (64 bytes at first, doubled on demand: 20-byte header + 4 bytes per head atom / 8
+    per weighted literal).  A rule that is the LARGEST thing the builder has held so far, with a head that fills the block exactly,
+    makes the sum bound / the first body literal the element that moves the block.  First rule of the program, head sizes around
+    every block size, in aspif and ground-text spelling."""
+    k = rnd.choice(CAP_HEADS + [rnd.randint(0, 70)])
+    ht = rnd.choice([0, 1])
+    nb = rnd.choice([0, 1, 1, 2, 5, 6, 7, 13, 14, 15])
+    bound = rnd.choice([0, 1, 2, 5])
+    sumbody = rnd.random() < 0.7
+    pre = rnd.random() < 0.25            # sometimes a small rule first (then the block has already grown or not)
+    if fam == 'aspif':
+        out = ['asp 1 0 0']
+        if pre:
+            out.append('1 0 1 1 0 1 2')
+        head = ' '.join(str(i + 1) for i in range(k))
+        if sumbody:
+            body = ' '.join('%d %d' % (rnd.choice([1, -1]) * (k + 1 + j), rnd.randint(1, 3)) for j in range(nb))
+            out.append(('1 %d %d %s 1 %d %d %s' % (ht, k, head, bound, nb, body)).replace('  ', ' ').rstrip())
+        else:
+            body = ' '.join(str(rnd.choice([1, -1]) * (k + 1 + j)) for j in range(nb))
+            out.append(('1 %d %d %s 0 %d %s' % (ht, k, head, nb, body)).replace('  ', ' ').rstrip())
+        out.append('0')
+        return ('\n'.join(out) + '\n').encode()
+    names = ['x%d' % (i + 1) for i in range(k)]
+    head = ('{%s}' % ';'.join(names)) if ht else '|'.join(names)
+    L = lambda j: ('not ' if rnd.random() < 0.4 else '') + 'x%d' % (k + 1 + j)
+    if sumbody:
+        body = '%d {%s}' % (bound, '; '.join('%s=%d' % (L(j), rnd.randint(1, 3)) for j in range(nb)))
+    else:
+        body = ', '.join(L(j) for j in range(nb))
+    txt = ('a :- b.\n' if pre else '') + (head + (' :- ' + body if body else '') + '.\n' if (head or body) else '')
+    return txt.encode()
 
 
 def ground_text(rnd):
@@ -502,7 +696,42 @@ def gen(seed, tier):
     while len(out) < total:
         r = rnd.random()
         variant = rnd.choice([0, 0, 1, 2])
+        if rnd.random() < 0.3:
+            # valid multi-directive programs through every pipeline and through the binary, every option set; a third of them damaged
+            # in one place (error in the middle of a conversion: the bytes written before it are compared)
+            tgt = rnd.choice([3, 3, 4, 5, 5, 6, 7, 7])
+            o = rnd.randint(0, 7)
+            if tgt in (3, 4) or (tgt == 7 and rnd.random() < 0.5):
+                ext = bool(o & 1) if rnd.random() < 0.85 else not (o & 1)
+                C.BIG_ATOMS = False
+                try:
+                    if tgt == 4 or (tgt == 7 and o & 4):
+                        prog = rnd.choice([coherent_theory_program, coherent_theory_program, lambda q: C.r_program(q, theory=False), C.r_program,
+                                           lambda q: convertible_program(q, True)])(rnd)
+                    else:
+                        prog = convertible_program(rnd, ext) if rnd.random() < 0.85 else C.r_program(rnd, theory=False)
+                finally:
+                    C.BIG_ATOMS = True
+                data, kind = aspif_text(prog, rnd), 'pipeline-aspif'
+            else:
+                ext = bool(o & 1) if rnd.random() < 0.85 else not (o & 1)
+                data, kind = (smodels_prog(rnd, ext) if rnd.random() < 0.8 else smodels_text(rnd)), 'pipeline-smodels'
+            if rnd.random() < 0.3:
+                data, kind = mutate_bytes(rnd, data), kind + '-damaged'
+            if tgt == 7:
+                variant = 0
+            data = data[:20000]
+            if announces_big(data):
+                continue
+            out.append((mk(tgt, o, data, variant), {'kind': kind}))
+            continue
         fam = rnd.choice(['aspif', 'aspif', 'smodels', 'smodels', 'text'])
+        if rnd.random() < 0.04:
+            fam = rnd.choice(['aspif', 'aspif', 'text'])
+            data = capacity_rule_text(rnd, fam)
+            m, o = rnd.choice([(0, 0), (3, 1), (4, 0), (7, 4), (7, 1)]) if fam == 'aspif' else (2, 0)
+            out.append((mk(m, o, data, 0 if m == 7 else variant), {'kind': 'builder-capacity-' + fam}))
+            continue
         if fam == 'aspif':
             modes = [(0, 0), (3, rnd.randint(0, 1)), (4, 0)]
             pipeline = rnd.random() < 0.6
@@ -568,8 +797,15 @@ def shrink(case, fails):
     return [mode, opts, len(data)] + data
 
 
-LEVEL_TEXT = ('Partial by nature. Proved in Coq for the reader models: totality and the consumer contract for every byte string. Crashes, out-of-bounds accesses, '
-              'UB and leaks of the compiled C++ are exhibited only by running the same inputs through ASan/UBSan/LSan builds of the readers and of lpconvert.')
-LEVEL_NOTE = 'Runtime memory behaviour is exploration-strength evidence (sanitizer runs); model-level statements are theorems.'
-TECHNIQUE = 'Coq totality/contract theorems over the reader models + sanitizer differential runs'
+LEVEL_TEXT = ('Partial by nature. Proved in Coq for EVERY byte string: index safety and termination of the read buffer; the consumer contract of the calls the three readers '
+              'deliver (aspif, smodels under every option set as to outcome / error line, ground text); and for the lpconvert pipelines, composed from the reader, converter and '
+              'writer models: totality (accepted or error-at-a-line with the bytes written, never a fault / fuel outcome) of aspif->smodels, smodels->aspif (every option set) and '
+              'smodels->text (without -p), the round trip smodels text -> lpconvert -> aspif reader = sm_norm, and that converting a written aspif program equals converting the program. '
+              'Partial: aspif->text can fault only inside endStep (cyclic theory term = an error of the real writer); smodels->text under -p only no-fuel. '
+              'The models are tied to the code on every run: all 8 modes (3 readers, 4 in-process pipelines, the real lpconvert binary with -p/-f/-t) are compared with the '
+              'model in status, error line and exact output bytes. Crashes, out-of-bounds accesses, UB and leaks of the compiled C++ are exhibited only by running the same '
+              'inputs through ASan/UBSan/LSan builds of the readers, the pipelines and lpconvert.')
+LEVEL_NOTE = ('Runtime memory behaviour is exploration-strength evidence (sanitizer runs); model-level statements are theorems; the lpconvert output is a theorem-backed model '
+              'checked byte for byte against the implementation (NUL-containing inputs and inputs announcing huge id-indexed tables are judged by the oracle only).')
+TECHNIQUE = 'Coq totality/contract/composition theorems over the reader, converter and writer models + sanitizer differential runs of readers, pipelines and the lpconvert binary'
 DESIGN_REF = 'DESIGN.md section 5, C04'
